@@ -33,4 +33,13 @@ def run(tier, seed):
                              'kind': 'bounded native: ieee14_exac1, ieee14_esac1a, ieee14_ac8b', 'counted_as_proved': False})
         if r.get('confirmed'):
             pack.violation(name, {'bounded': True, 'inputs': r.get('inputs'), 'observed': r.get('observed'), 'native_cmd': r.get('native_cmd')})
+    from contracts import bounded_modes as BMD
+    mname = 'C05/andes/models:mode-selectors/bounded:every-allowed-option-of-every-mode-selector-initialises-to-an-equilibrium'
+    r = native_guard(pack, mname, lambda: BMD.run(tier))
+    if r is not None:
+        nm, badm = r
+        pack.bounded.append({'function': 'TDS.init / TDS.run with every option of the mode selectors of ST2CUT, IEEEST, ESST1A%s (end to end)' % (
+            ', REECA1, REPCA1, WTTQA1, PVD1, ESD1' if tier == 'thorough' else ''), 'settings': nm, 'counted_as_proved': False, 'kind': 'bounded native: stock cases, no disturbance'})
+        if badm:
+            pack.violation(mname, {'bounded': True, 'inputs': badm, 'native_cmd': 'contracts/bounded_modes.py'})
     return pack.finish()
